@@ -189,7 +189,13 @@ func (e *Env) Quiesce(timeout time.Duration) (Snapshot, bool) {
 	deadline := time.Now().Add(timeout)
 	for {
 		w.mu.Lock()
-		ok := w.waitLocked(time.Until(deadline), w.caughtUpLocked)
+		ok := w.waitLocked(time.Until(deadline), func() bool { return w.stuck || w.caughtUpLocked() })
+		if w.stuck {
+			// the count-based progress oracle has its verdict (recording already closed): no need to wait
+			s := w.snapshotLocked()
+			w.mu.Unlock()
+			return s, false
+		}
 		n := w.significantLocked()
 		w.mu.Unlock()
 		if !ok {
@@ -295,7 +301,7 @@ func GenRandomParams(seed int64) RandomParams {
 			}
 		}
 	}
-	p.HonorCancel = r.Intn(2) == 0
+	p.HonorCancel = r.Intn(3) != 0 // the healthy exporter honours its context in 2 scenarios out of 3
 	p.JitterUs = []int{0, 50, 200, 600}[r.Intn(4)]
 	return p
 }
